@@ -10,10 +10,11 @@ for f in "$d"/*.diff; do
   if ! (cd "$tmp" && patch -p1 -s < "$f"); then echo "$(basename $d)/$(basename $f): PATCH-FAILS"; rm -rf "$tmp"; continue; fi
   if ! (cd "$tmp" && go build ./... >/dev/null 2>&1); then echo "$(basename $d)/$(basename $f): BUILD-FAILS"; rm -rf "$tmp"; continue; fi
   out=$(GVC_REPO="$tmp" /verif/bin/gvc all 2>&1)
-  fails=$(echo "$out" | grep "^FAIL" | awk '{print $2}' | sed 's/\.[0-9]*$//' | sort -u | tr '\n' ' ')
+  impr=$(echo "$out" | grep "^IMPRECISE" | awk '{print $2}' | sed 's/:$//' | sort -u | tr '\n' '|' | sed 's/|$//')
+  fails=$(echo "$out" | grep "^FAIL" | awk '{print $2}' | sed 's/\.[0-9]*$//' | sort -u | { if [ -n "$impr" ]; then grep -vE "^($impr)/" ; else cat; fi; } | tr '\n' ' ')
   outside=$(echo "$out" | grep "^OUTSIDE" | cut -c1-160 | tr '\n' ';')
   c10=$(GVC_REPO="$tmp" GVC_EVIDENCE_DIR="$tmp/.ev" GVC_REPLAY_DIR="$tmp/.rp" /verif/bin/gvc check C10 2>&1 | grep -c "^VIOLATION")
   c11=$(GVC_REPO="$tmp" GVC_EVIDENCE_DIR="$tmp/.ev" GVC_REPLAY_DIR="$tmp/.rp" /verif/bin/gvc check C11 2>&1 | grep -c "^VIOLATION")
-  echo "$(basename $d)/$(basename $f): $(echo "$out" | tail -1) | FAIL: [$fails] | OUTSIDE: [$outside] | C10 viol: $c10 C11 viol: $c11"
+  echo "$(basename $d)/$(basename $f): $(echo "$out" | tail -1) | FAIL: [$fails] | OUTSIDE: [$outside] | IMPRECISE: [$impr] | C10 viol: $c10 C11 viol: $c11"
   rm -rf "$tmp"
 done
